@@ -119,6 +119,9 @@ func verifC28Gen(rt *rapid.T, drainBias bool) verifC28Params {
 	roll := rapid.IntRange(0, 9).Draw(rt, "drainRoll")
 	if (drainBias && roll < 8) || (!drainBias && roll < 2) {
 		p.DrainAt = rapid.IntRange(0, totalChunks).Draw(rt, "drainAt")
+		if drainBias && totalChunks > 1 {
+			p.DrainAt = rapid.IntRange(1, totalChunks-1).Draw(rt, "drainAtMid")
+		}
 		p.DrainShort = rapid.Bool().Draw(rt, "drainShort")
 	}
 	slow := rapid.IntRange(0, 2).Draw(rt, "slowUsecase")
@@ -515,6 +518,12 @@ func verifC28Run(p verifC28Params, gateUsecase bool) *verifC28History {
 				var ctx context.Context
 				var cancel context.CancelFunc
 				if p.DrainShort {
+					if uc.gate != nil && p.DrainAt > 0 {
+						// scheduling aid only: let an already admitted SEND reach the (blocked) usecase
+						for i := 0; i < 300 && uc.inflight.Load() == 0; i++ {
+							time.Sleep(100 * time.Microsecond)
+						}
+					}
 					ctx, cancel = context.WithDeadline(context.Background(), time.Now().Add(-time.Second))
 				} else {
 					ctx, cancel = context.WithTimeout(context.Background(), verifC28WaitTimeout())
